@@ -213,9 +213,9 @@ func c11Quiescent(c *explore.Ctx) {
 		base, cfg string
 		depth     int
 	}
-	spaces := []sp{{"E", "BIGC", 2}, {"CH", "BIGC", 2}, {"CC", "BIGC", 2}, {"SP", "BIGC", 2}, {"ML", "BIGC", 2}, {"HO", "BIGC", 2}, {"SP", "ROLL", 2}}
+	spaces := []sp{{"E", "BIGC", 2}, {"CH", "BIGC", 2}, {"CC", "BIGC", 2}, {"SP", "BIGC", 2}, {"ML", "BIGC", 2}, {"HO", "BIGC", 2}, {"SP", "ROLL", 2}, {"LCS", "BIGC", 2}, {"LCM", "BIGC", 2}}
 	if c.Thorough() {
-		spaces = []sp{{"E", "BIGC", 3}, {"CH", "BIGC", 3}, {"CC", "BIGC", 3}, {"SP", "BIGC", 3}, {"ML", "BIGC", 3}, {"HO", "BIGC", 3}, {"SP", "ROLL", 3}, {"CH", "ROLL", 3}, {"E", "ROLL1", 3}}
+		spaces = []sp{{"E", "BIGC", 3}, {"CH", "BIGC", 3}, {"CC", "BIGC", 3}, {"SP", "BIGC", 3}, {"ML", "BIGC", 3}, {"HO", "BIGC", 3}, {"SP", "ROLL", 3}, {"CH", "ROLL", 3}, {"E", "ROLL1", 3}, {"LCS", "BIGC", 3}, {"LCM", "BIGC", 3}, {"FL", "BIGC", 3}}
 	}
 	for _, s := range spaces {
 		if c.Expired() || c.NViolations() > 0 {
